@@ -55,6 +55,17 @@ var c20Faults = map[string]string{
 	"nilmap": "mp[\"a\"] = 1", "nilfieldset": "p.A = 3", "nilmethod": "x = p.mz(1)", "negindex": "x = xs[x-x-1]",
 }
 
+// the same faults with the failing operator on the first line and its last operand on the second
+var c20Wrapped = map[string][]string{
+	"index": {"x = xs[", "\tx-x+7]"}, "div": {"x = x /", "\t(x - x)"}, "mod": {"x = x %", "\t(x - x)"},
+	"panic": {"panic(", "\t\"boom\")"}, "slice": {"xs = xs[1:", "\t9]"}, "strindex": {"x = int(s[", "\tx-x+5])"},
+	"negindex": {"x = xs[", "\tx-x-1]"}, "nilmap": {"mp[", "\t\"a\"] = 1"},
+	"nilfieldset": {"p.", "\tA = 3"}, "nilfield": {"x = p.", "\tA"}, "nilmethod": {"x = p.", "\tmz(1)"}, "nilfunc": {"x = nf(", "\t1)"},
+}
+
+// a store is located at its "=", a selection at the selected name: both stand on the second line
+var c20WrappedOff = map[string]int{"nilmap": 1, "nilfieldset": 1, "nilfield": 1, "nilmethod": 1}
+
 func (g *c20Gen) op() *c20Stmt {
 	r := g.r
 	switch r.Intn(7) {
@@ -119,6 +130,9 @@ func (g *c20Gen) body(depth int, onPath bool) []*c20Stmt {
 				case k == "div" && r.Intn(2) == 0:
 					g.feat["fault-second-line-of-statement"] = true
 					out = append(out, &c20Stmt{kind: "fault", lines: []string{"x = x +", "\tx/(x-x)"}, off: 1})
+				case c20Wrapped[k] != nil && r.Intn(3) == 0: // the operator on one line, its last operand on the next: the fault is where the operator is
+					g.feat["fault-operator-before-wrapped-operand"] = true
+					out = append(out, &c20Stmt{kind: "fault", lines: c20Wrapped[k], off: c20WrappedOff[k]})
 				default:
 					out = append(out, &c20Stmt{kind: "fault", lines: []string{c20Faults[k]}})
 				}
@@ -389,7 +403,7 @@ func c20Show(fr []c20Frame) string {
 }
 
 func runC20(c *Ctx) error {
-	c.Rep.Rule = "backtrace: programs built from a random call tree of depth 1..7 (up to ~25 functions and methods emitted in random order, completed calls before the fault, recursion of depth 1..30), calls as statement / in an expression / in if, else, for, range and switch bodies / through a function value / as an argument of another call / with arguments over several lines, one fault among 12 kinds (index, negative index, slice bounds, string index, integer division and modulo by zero, explicit panic, nil struct field read and write, nil method receiver, nil function value, nil map write) planted at a known line, 5% without fault; each run with the optimizer off and on; distinct = distinct program; non-trivial = chain of at least 3 frames"
+	c.Rep.Rule = "backtrace: programs built from a random call tree of depth 1..7 (up to ~25 functions and methods emitted in random order, completed calls before the fault, recursion of depth 1..30), faults with the operator and its last operand on different lines, calls as statement / in an expression / in if, else, for, range and switch bodies / through a function value / as an argument of another call / with arguments over several lines, one fault among 12 kinds (index, negative index, slice bounds, string index, integer division and modulo by zero, explicit panic, nil struct field read and write, nil method receiver, nil function value, nil map write) planted at a known line, 5% without fault; each run with the optimizer off and on; distinct = distinct program; non-trivial = chain of at least 3 frames"
 	n := 120
 	if c.Thorough() {
 		n = 60000
@@ -458,6 +472,72 @@ func runC20(c *Ctx) error {
 			if ans[i] != implLines {
 				c.Rep.Violate(Violation{Kind: "correspondence", Cut: "backtrace", Input: j.src, Impl: implLines, Model: ans[i]})
 			}
+		}
+	}
+	return c.c20PosLimits()
+}
+
+// c20PosLimits: the position word against the model (Goat.Backtrace.newPos / posInfo): faults planted beyond
+// line and column 65535 (both saturate there) and just below; function names and the call chain must be intact
+func (c *Ctx) c20PosLimits() error {
+	colRe := regexp.MustCompile(`\bv:(\d+):(\d+)`)
+	type pj struct {
+		src            string
+		line, col      int
+		gotL, gotC, fn string
+	}
+	var jobs []pj
+	var lines []string
+	pads := []int{0, 5, 65530, 65531, 65532, 65533, 65534, 65535, 65536, 70000, 131072 + 9}
+	if c.Thorough() {
+		pads = append(pads, 65529, 65537, 65540, 99999, 196608+2, 262144+7, 300000)
+	}
+	for _, pad := range pads {
+		for _, form := range []int{0, 1} {
+			var src string
+			var line, col int
+			if form == 0 { // pad blank lines before the function
+				src = strings.Repeat("\n", pad) + "func f() int {\n\txs := []int{1}\n\treturn xs[5]\n}\nfunc g() int {\n\treturn f()\n}\ng()\n"
+				line, col = pad+3, 11
+			} else { // pad blanks before the faulting statement on one line
+				src = "func f() int {\n\txs := []int{1}\n" + strings.Repeat(" ", pad) + "return xs[5]\n}\nfunc g() int {\n\treturn f()\n}\ng()\n"
+				line, col = 3, pad+10
+			}
+			for _, opt := range []bool{false, true} {
+				var err error
+				if e := try(func() { _, err = goat.New().VerifEval(src, opt) }); e != nil {
+					err = fmt.Errorf("PANIC escaped: %v", e)
+				}
+				j := pj{src: fmt.Sprintf("form %d pad %d optimize=%v", form, pad, opt), line: line, col: col}
+				if err != nil {
+					first := strings.SplitN(err.Error(), "\n", 2)[0]
+					if m := colRe.FindStringSubmatch(first); m != nil {
+						j.gotL, j.gotC = m[1], m[2]
+					}
+					if strings.Contains(first, "main.f(...)") && strings.Count(err.Error(), "\n") == 2 && strings.Contains(err.Error(), "main.g(...)") {
+						j.fn = "ok"
+					} else {
+						j.fn = err.Error()
+					}
+				}
+				jobs = append(jobs, j)
+				lines = append(lines, fmt.Sprintf("bt pos 1 2 %d %d", line, col))
+			}
+		}
+	}
+	if c.Model == nil {
+		return nil
+	}
+	ans, err := c.Model.AskAll(lines)
+	if err != nil {
+		return err
+	}
+	for i, j := range jobs {
+		c.Rep.Corr["position-word"]++
+		c.Rep.Count("position-limits")
+		impl := fmt.Sprintf("1 2 %s %s", j.gotL, j.gotC)
+		if ans[i] != impl || j.fn != "ok" {
+			c.Rep.Violate(Violation{Kind: "correspondence", Cut: "position-word", Input: j.src + fmt.Sprintf(" (fault at line %d column %d)", j.line, j.col), Impl: impl + " names/chain: " + j.fn, Model: ans[i] + " names/chain: ok"})
 		}
 	}
 	return nil
